@@ -140,25 +140,35 @@ theorem lexGe_eq {l r : List Rat} (hle : PLe l r) (hge : lexGe l r = true) : l =
     · simp only [h2, if_false] at hge
       rw [le_antisymm hab (not_lt.mp h2), ih hge]
 
+/-- pointwise `l ≤ r`: the crossing test of the constructor does not fire -/
+theorem no_cross_of_PLe {l r : List Rat} (h : PLe l r) :
+    (l.zip r).any (fun p => decide (p.1 > p.2)) = false := by
+  induction h with
+  | nil => simp
+  | @cons a b s t hab _ ih =>
+    simp only [List.zip_cons_cons, List.any_cons, Bool.or_eq_false_iff, decide_eq_false_iff_not, not_lt]
+    exact ⟨hab, ih⟩
+
 theorem mk_ok (n : Nat) (lists : Bool) (l r : List Rat) (hl : l.length = n) (hr : r.length = n)
     (sl : l.Pairwise (· ≤ ·)) (sr : r.Pairwise (· ≤ ·)) (hle : PLe l r) :
     mk n lists l r = .ok ⟨l, r⟩ := by
   have hlen : l.length = r.length := by omega
   have il := isIncreasing_of_sorted l sl
   have ir := isIncreasing_of_sorted r sr
+  have nc := no_cross_of_PLe hle
   cases lists with
   | true =>
     by_cases hge : lexGe l r = true
     · have e := lexGe_eq hle hge
       subst e
-      simp [mk, hge, boundSteps, hl, il, bind, Except.bind]
-    · simp [mk, hge, boundSteps, hl, hr, il, ir, bind, Except.bind]
+      simp [mk, hge, boundSteps, hl, il, nc, bind, Except.bind]
+    · simp [mk, hge, boundSteps, hl, hr, il, ir, nc, bind, Except.bind]
   | false =>
     by_cases hge : allGe l r = true
     · have e := allGe_eq hle hge
       subst e
-      simp [mk, hge, boundSteps, hl, il, bind, Except.bind]
-    · simp [mk, hlen, hge, boundSteps, hl, hr, il, ir, bind, Except.bind]
+      simp [mk, hge, boundSteps, hl, il, nc, bind, Except.bind]
+    · simp [mk, hlen, hge, boundSteps, hl, hr, il, ir, nc, bind, Except.bind]
 
 /-- well-formed p-box with `n` steps: both bounds sorted, `left ≤ right` at every step -/
 structure WF (n : Nat) (p : PB) : Prop where
